@@ -982,6 +982,168 @@ def check_optimize(case, layer_by_layer):
 
 
 # ------------------------------------------------------------------------------------------------
+# optimize_parameters driven through its option combinations with a PROBE as scipy `method`
+# ------------------------------------------------------------------------------------------------
+# scipy.optimize.minimize accepts a callable method; ours receives exactly what a real optimiser receives
+# (fun, x0, args, jac, bounds, constraints) for every layer, and checks at x0 and at perturbed points:
+#   * fun(x)  = cost of a FRESH object with k layers at the vector (frozen ++ x)           (oracle)
+#   * jac(x)  has one entry per varied parameter and equals central finite differences of fun   (oracle)
+#   * fun(x) / jac(x) = the model's cost tree / Jacobian trees for k layers, restricted to the layer's free
+#     indices, evaluated at (frozen ++ x)                                                   (correspondence)
+INITIAL_KINDS = ("list", "array", "ones", "random")
+
+
+def gen_probe(rng, k):
+    while True:
+        case = gen_case(rng, kinds=("ham", "ham", "ph", "ph", "unit", "native"), maxblocks=3, max_nq=2,
+                        max_layers=3, max_free=9)
+        if count_free(case) > 0:
+            break
+    case["layers"] = 1 + (k // 4) % 3 if rng.random() < 0.7 else case["layers"]
+    n = count_free(case)
+    if n > 10:
+        case["layers"] = 1
+        n = count_free(case)
+    case["angles"] = gen_angles(rng, n) if rng.random() < 0.8 else gen_boundary_angles(rng, n)
+    case["idxs"] = None
+    case["optimize"] = dict(probe=True, layer_by_layer=bool(k % 2), use_jac=bool((k // 2) % 2 == 0),
+                            initial=INITIAL_KINDS[(k // 4) % 4] if rng.random() < 0.5 else rng.choice(["list", "array"]),
+                            bounds=rng.choice([None, None, "Bounds", "pairs"]),
+                            constraints=rng.choice([None, None, "empty-list"]),
+                            seed=rng.randrange(1, 10 ** 6))
+    return case
+
+
+def layer_counts(case):
+    """number of free parameters of the circuit truncated to 1..L layers"""
+    out = []
+    for k in range(1, case["layers"] + 1):
+        c = dict(case)
+        c["layers"] = k
+        out.append(count_free(c))
+    return out
+
+
+def probe_model_cases(case):
+    """plain cases whose model value describes what the optimiser must receive, one per minimize() call"""
+    o = case["optimize"]
+    base = {k: case[k] for k in ("nq", "obs_seed", "blocks")}
+    if not o["layer_by_layer"]:
+        c = dict(base, layers=case["layers"], angles=[0.0] * count_free(case), idxs=None, as_array=True)
+        return [c]
+    out = []
+    prev = 0
+    for k, n in enumerate(layer_counts(case), start=1):
+        out.append(dict(base, layers=k, angles=[0.0] * n, idxs=list(range(prev, n)), as_array=True))
+        prev = n
+    return out
+
+
+def check_optimize_probe(case, mvals=None):
+    """-> (diffs, oracle failure or None)"""
+    import random as pyrandom
+    import types
+    import scipy.optimize
+    o = case["optimize"]
+    plain = {k: v for k, v in case.items() if k != "optimize"}
+    built = Built(plain)
+    vqa = built.vqa
+    mcases = probe_model_cases(case)
+    rs = np.random.RandomState(o["seed"] % (2 ** 31))
+    diffs = []
+    fails = []
+    calls = []
+
+    def probe(fun, x0, args=(), jac=None, **kw):
+        k = len(calls)
+        x0 = np.array(x0, dtype=float)
+        frozen = np.array(args[0], dtype=float) if (o["layer_by_layer"] and len(args)) else np.zeros(0)
+        mc = mcases[k] if k < len(mcases) else None
+        calls.append(dict(n=len(x0), frozen=len(frozen)))
+        if mc is None:
+            fails.append(dict(observed="minimize() call %d" % (k + 1), expected="%d calls" % len(mcases),
+                              what="optimize: more optimiser calls than layers"))
+            return types.SimpleNamespace(x=x0, fun=0.0, nfev=1)
+        ref = Built(dict(plain, layers=mc["layers"]))     # fresh object with this many layers
+        m_eval = m_jac = None
+        if mvals is not None:
+            m_eval, m_jac = opt(mvals[k][3]), opt(mvals[k][4])
+        if o["use_jac"] and jac is None:
+            fails.append(dict(observed="jac=None", expected="a gradient callable",
+                              what="optimize: use_jac=True but the optimiser receives no gradient"))
+        pts = [x0] + [x0 + rs.uniform(-0.4, 0.4, size=len(x0)) for _ in range(2)]
+        for x in pts:
+            full = np.concatenate([frozen, x])
+            if len(full) != len(mc["angles"]):
+                fails.append(dict(observed=dict(layer=mc["layers"], frozen=len(frozen), free=len(x)),
+                                  expected="%d parameters in total" % len(mc["angles"]),
+                                  what="optimize: the optimiser varies a wrong number of parameters"))
+                break
+            f = float(np.real(fun(x, *args)))
+            want = float(np.real(ref.vqa.evaluate_parameters(list(full))))
+            if abs(f - want) > 1e-9 * max(1.0, abs(want)) and not fails:
+                fails.append(dict(observed=dict(layer=mc["layers"], fun=f, x=list(x), frozen=list(frozen)), expected=want,
+                                  what="optimize: the cost handed to the optimiser is not the cost of the circuit at (frozen ++ free)"))
+            if m_eval is not None:
+                mv = eval_ex(built, list(full), m_eval)
+                if abs(mv - f) > 1e-9 * max(1.0, abs(mv)):
+                    diffs.append(("optimize: cost handed to the optimiser (layer %d)" % mc["layers"], f, mv))
+            if jac is None:
+                continue
+            g = np.asarray(jac(x, *args), dtype=float)
+            if g.shape != x.shape:
+                if not fails:
+                    fails.append(dict(observed=list(g.shape), expected=[len(x)],
+                                      what="optimize: the gradient handed to the optimiser has not one entry per varied parameter"))
+                break
+            h = 1e-5
+            fd = []
+            for j in range(len(x)):
+                e = np.zeros(len(x))
+                e[j] = h
+                fd.append(float(np.real(fun(x + e, *args)) - np.real(fun(x - e, *args))) / (2 * h))
+            scale = max([1.0] + [abs(v) for v in fd])
+            if any(abs(a - b) > 1e-5 * scale for a, b in zip(g, fd)) and not fails:
+                fails.append(dict(observed=dict(layer=mc["layers"], jac=[float(v) for v in g], x=list(x), frozen=list(frozen)),
+                                  expected=dict(finite_differences_of_fun=fd),
+                                  what="optimize: the gradient handed to the optimiser is not the derivative of the cost handed to the optimiser"))
+            if m_jac is not None:
+                vals = [eval_ex(built, list(full), e) for e in m_jac]
+                if len(vals) != len(g) or any(abs(a - b) > 1e-9 * max(1.0, abs(b)) for a, b in zip(g, vals)):
+                    diffs.append(("optimize: gradient handed to the optimiser (layer %d) vs model Jacobian restricted to "
+                                  "the layer's free indices at frozen ++ free" % mc["layers"], [float(v) for v in g], vals))
+        # pretend the optimiser moved a little, so that frozen values differ from the initial guess
+        xr = pts[1] if len(pts) > 1 else x0
+        return types.SimpleNamespace(x=xr, fun=float(np.real(fun(xr, *args))), nfev=1)
+
+    n = count_free(plain)
+    ik = o["initial"]
+    initial = {"list": list(case["angles"]), "array": np.array(case["angles"], dtype=float)}.get(ik, ik)
+    kw = {}
+    if o.get("bounds") == "Bounds":
+        kw["bounds"] = scipy.optimize.Bounds(-10.0, 10.0)
+    elif o.get("bounds") == "pairs" and not o["layer_by_layer"]:
+        kw["bounds"] = [(-10.0, 10.0)] * n
+    if o.get("constraints") == "empty-list":
+        kw["constraints"] = []
+    pyrandom.seed(o["seed"])
+    raised = None
+    try:
+        with contextlib.redirect_stdout(io.StringIO()):
+            vqa.optimize_parameters(initial=initial, method=probe, use_jac=o["use_jac"],
+                                    layer_by_layer=o["layer_by_layer"], **kw)
+    except Exception as e:
+        raised = "%s: %s" % (type(e).__name__, str(e)[:160])
+    if raised and not fails:
+        fails.append(dict(observed="raises " + raised, expected="an optimisation result",
+                          what="optimize: optimize_parameters raises with a well-behaved optimiser"))
+    if not raised and len(calls) != len(mcases) and not fails:
+        fails.append(dict(observed="%d minimize() calls" % len(calls), expected="%d" % len(mcases),
+                          what="optimize: wrong number of optimiser calls"))
+    return diffs, (fails[0] if fails else None)
+
+
+# ------------------------------------------------------------------------------------------------
 # harness interface
 # ------------------------------------------------------------------------------------------------
 def one_real(case):
@@ -1000,7 +1162,10 @@ def correspond(ctx):
                      "histories also reassign cost_observable / cost_func, add blocks or change num_layers on the live "
                      "object between calls (the model is re-evaluated for the new structure, finite differences on a "
                      "fresh object). Parameter vectors include exact 0.0 at every position, -0.0, multiples of pi/2, "
-                     "+-2pi and repeated values")
+                     "+-2pi and repeated values. optimize_parameters is driven through layer_by_layer x use_jac x initial "
+                     "(list/array/ones/random) x 1-3 layers x bounds/constraints with a probe as scipy method: for every "
+                     "minimize() call the (fun, jac) it receives are compared with the model's cost / Jacobian restricted "
+                     "to that layer's free indices at frozen ++ free, with a fresh object and with finite differences of fun")
     rng = ctx.rng
     cases = []
     for c in corpus_cases():
@@ -1020,16 +1185,23 @@ def correspond(ctx):
         cases.append((gen_history(rng), "history"))
     for _ in range(ctx.n(80, 600)):
         cases.append((gen_staged_history(rng), "history-staged"))
+    for k in range(ctx.n(64, 480)):
+        cases.append((gen_probe(rng, k), "optimize-probe"))
     tag = "%d" % os.getpid()
-    # one model evaluation per plain case / per stage of a history
+    # one model evaluation per plain case / per stage of a history / per minimize() call of an optimisation
     flat = []
     spans = []
     for c, _ in cases:
-        scs = [sc for _, sc in stage_cases(c)] if "history" in c or "stages" in c else [c]
+        if "optimize" in c:
+            scs = probe_model_cases(c)
+        elif "history" in c or "stages" in c:
+            scs = [sc for _, sc in stage_cases(c)]
+        else:
+            scs = [c]
         spans.append((len(flat), len(scs)))
         flat += scs
     flat_vals = run_model(flat, tag)
-    mvals = [flat_vals[a:a + n] if ("history" in c or "stages" in c) else flat_vals[a]
+    mvals = [flat_vals[a:a + n] if ("history" in c or "stages" in c or "optimize" in c) else flat_vals[a]
              for (c, _), (a, n) in zip(cases, spans)]
     n_orig = 0
     n_multi = 0
@@ -1044,6 +1216,23 @@ def correspond(ctx):
             corr.tally("angles:contains exact 0.0")
         if len(set(case["angles"])) < len(case["angles"]):
             corr.tally("angles:repeated values")
+        if "optimize" in case:
+            o = case["optimize"]
+            corr.tally("optimize-probe:layer_by_layer=%s,use_jac=%s" % (o["layer_by_layer"], o["use_jac"]))
+            corr.tally("optimize-probe:initial=" + o["initial"])
+            corr.tally("optimize-probe:bounds=%s" % o.get("bounds"))
+            try:
+                pd, pf = check_optimize_probe(case, mval)
+            except Exception as e:
+                corr.disagree(case, "harness could not run the optimisation probe: %r" % (e,), None, "probe construction")
+                continue
+            for what, impl, model in pd[:2]:
+                corr.disagree(case, impl, model, what)
+            if pf is not None:
+                corr.oracle_fail(case, pf["observed"], pf["expected"], pf["what"])
+            corr.count(json.dumps([structure_key(case), sorted((k, str(v)) for k, v in o.items() if k != "seed")]),
+                       nontrivial=True, sample=None)
+            continue
         if "history" in case or "stages" in case:
             ops = [st["op"] for _, sc in stage_cases(case) for st in sc["history"]]
             corr.tally("history:calls", sum(1 for o in ops if o in ("jac", "cost")))
@@ -1134,6 +1323,8 @@ def classify(failure):
 def _fail_of(case):
     if "history" in case or "stages" in case:
         return check_history(case, None)[1]
+    if "optimize" in case and case["optimize"].get("probe"):
+        return check_optimize_probe(case, None)[1]
     if "optimize" in case:
         c = {k: v for k, v in case.items() if k != "optimize"}
         f, _ = check_optimize(c, bool(case["optimize"].get("layer_by_layer")))
@@ -1165,6 +1356,8 @@ def search(ctx, broken):
         cands.append(gen_boundary_case(rng))
     for _ in range(ctx.n(40, 200)):
         cands.append(gen_staged_history(rng))
+    for k in range(ctx.n(32, 160)):
+        cands.append(gen_probe(rng, k))
     for _ in range(ctx.n(150, 1000)):
         cands.append(gen_case(rng))
         if _ % 3 == 0:
